@@ -561,7 +561,7 @@ class SimCluster:
         for t in obj["topics"]:
             parts = []
             for p in t["partitions"]:
-                r = self.fetch_partition(node, t["topic"], p["partition"], p["fetch_offset"],
+                r = self.fetch_partition(node, t["topic"], p["partition"], p.get("fetch_offset", p.get("offset")),
                                          p.get("max_bytes", 1 << 20), iso)
                 if r["message_set"]:
                     any_data = True
@@ -578,7 +578,7 @@ class SimCluster:
             def fire():
                 topics2 = []
                 for t in obj["topics"]:
-                    parts = [self.fetch_partition(node, t["topic"], p["partition"], p["fetch_offset"],
+                    parts = [self.fetch_partition(node, t["topic"], p["partition"], p.get("fetch_offset", p.get("offset")),
                                                   p.get("max_bytes", 1 << 20), iso) for p in t["partitions"]]
                     topics2.append({"topics": t["topic"], "partitions": parts})
                 send({"topics": topics2, "error_code": 0, "session_id": 0})
@@ -768,7 +768,7 @@ def summarize(name, obj):
                               for p in t["partitions"]]}
         if name == "Fetch":
             return {"iso": obj.get("isolation_level", 0),
-                    "parts": [(t["topic"], p["partition"], p["fetch_offset"]) for t in obj["topics"]
+                    "parts": [(t["topic"], p["partition"], p.get("fetch_offset", p.get("offset"))) for t in obj["topics"]
                               for p in t["partitions"]]}
         if name == "JoinGroup":
             return {"group": obj["group"], "member": obj["member_id"],
